@@ -5,7 +5,7 @@ CONSTANTS
   MaxExtCli = 2
   MaxKe = 2
   MaxCases = 2
-  ScDev = 2
+  ScDev = 1
   Wide = FALSE
   ExtLenZeroLoops = FALSE
   NonceLenUnchecked = FALSE
